@@ -65,7 +65,7 @@ class C12(SessionCheck):
                     return ('C12:listener-after-close' + key, 'a listener was invoked after close had returned')
                 if not str(io.get('later_request', '')).startswith('TransportError'):
                     return ('C12:later-request-not-refused' + key, 'a request after close gave %s' % io.get('later_request'))
-                if sc.get('how') in ('with-exception', 'with-transport-error') and not io.get('body_exception_propagated'):
+                if sc.get('how') in ('with-exception', 'with-transport-error') and io.get('close') == 'ok' and not io.get('body_exception_propagated'):
                     return ('C12:body-exception-lost' + key, 'the with-body exception did not propagate')
                 if sc.get('inflight') and io.get('inflight', {}).get('out') == 'reply':
                     return ('C12:inflight-got-reply' + key, 'the unanswered in-flight request returned a reply')
